@@ -58,6 +58,12 @@ def rec(token, *args):
     return 'E' + token
 
 
+def positional(p0='-', p1='-', p2='-', p3='-', *rest, **kw):
+    """A target with named positional parameters: reports which parameter received what."""
+    LOG.append([_who(), 'call', 'positional', _flat([p0, p1, p2, p3, list(rest), kw], [])])
+    return [p0, p1, p2, p3, list(rest), sorted(kw.items())]
+
+
 def raiser(token='x'):
     LOG.append([_who(), 'call', 'raiser_' + str(token), []])
     raise RuntimeError('user code failure ' + str(token))
@@ -82,6 +88,7 @@ def install():
     m = _SimRec('simrec')
     m.rec = rec
     m.raiser = raiser
+    m.positional = positional
     m.__file__ = '<simrec>'
     sys.modules['simrec'] = m
     del LOG[:]
